@@ -11,9 +11,13 @@
   case-folded pattern, regular expressions on the path as it is.  The kept files are stored in
   the order of their component lists (pathlib's order).
 
-  `Hyp` is the decidable hypothesis under which the model is proved to meet this specification;
+  `hypB` is the decidable hypothesis under which the model is proved to meet this specification;
   each conjunct that is not plain well-formedness excludes one recorded defect class
-  (D15a `probeOK`, D15b/D15d `spellOK`/`nameOK`, D15c `prefixOK`).
+  (D15b/D15d `spellOK`/`nameOK`, D15c `prefixOK`).  The former conjunct `probeOK` (D15a: the cwd
+  had to be the tree's parent directory, or the tree had to have no empty file and no same-named
+  empty file below the cwd) is gone since /repo d89a92e; `listedExist` — what `os.walk` listed
+  exists for `os.path.exists` — is consistency of the file system, not a restriction on the
+  cwd, the spelling or the tree.
 -/
 import Torf.Model.Create
 namespace Torf.Create.Spec
@@ -66,28 +70,35 @@ def spellOK (env : Env) (t : Tree) : Bool :=
 def nameOK (env : Env) (t : Tree) : Bool :=
   (abspath env.cwd (pathlibNorm env.spelling)).getLast? == some t.name
 
-/-- the empty-file probe (`os.path.exists`/`real_size` of the torrent-relative path `name/rel`,
-    resolved against the cwd) answers "exists and has size 0" exactly for the tree's empty files;
-    true e.g. when the cwd is the tree's parent directory (D15a otherwise) -/
-def probeOK (env : Env) (t : Tree) : Bool :=
-  t.files.all fun f => probeEmpty env.probe (t.name :: f.rel) == (f.size == 0)
+/-- the listed paths exist: `_set_files` asks `os.path.exists(f)` for the path `list_files` has
+    just produced by walking the spelled directory (`spelling/rel`, resolved by the OS against the
+    cwd if the spelling is relative).  True by construction on a file system that does not change
+    between the walk and the test, wherever the cwd is and however the path is spelled
+    (`C15_listedExist_of_addresses`). -/
+def listedExist (env : Env) (t : Tree) : Bool :=
+  t.files.all fun f => env.pathExists (listedPath (pathlibNorm env.spelling) f)
 
 def noPatterns (st : Settings) : Bool :=
   st.exGlobs.isEmpty && st.exRegexs.isEmpty && st.inGlobs.isEmpty && st.inRegexs.isEmpty
 
-/-- `filter_files` takes `commonpath` of all listed files for the torrent's directory; that is
-    right when two files differ in their first component (or the tree is a single file).  If
-    all files share a first component (D15c) the patterns see a distorted path and the hidden
-    test starts below the shared directories — harmless only without patterns and when some
-    file is not hidden. -/
-def prefixOK (st : Settings) (t : Tree) : Bool :=
-  t.files.isEmpty ||
-  t.files.any (fun f => t.files.any fun g => f.rel.head? != g.rel.head?) ||
-  t.files.any (·.rel.isEmpty) ||
-  (noPatterns st && t.files.any fun f => !isHidden f.rel)
+/-- the files `filter_files` is handed since d89a92e: the non-empty ones -/
+def nonEmpty (t : Tree) : List FileEnt := t.files.filter fun f => f.size != 0
+
+/-- `filter_files` takes `commonpath` of the files it is handed — the *non-empty* listed files —
+    for the torrent's directory; that is right when two of them differ in their first component
+    (or the tree is a single file).  If they all share a first component (D15c) the patterns see
+    a distorted path and the hidden test starts below the shared directories — harmless only
+    without patterns and when some non-empty file is not hidden. -/
+def prefixOKOn (st : Settings) (ne : List FileEnt) : Bool :=
+  ne.isEmpty ||
+  ne.any (fun f => ne.any fun g => f.rel.head? != g.rel.head?) ||
+  ne.any (·.rel.isEmpty) ||
+  (noPatterns st && ne.any fun f => !isHidden f.rel)
+
+def prefixOK (st : Settings) (t : Tree) : Bool := prefixOKOn st (nonEmpty t)
 
 def hypB (st : Settings) (env : Env) (t : Tree) : Bool :=
-  cleanTree t && spellOK env t && nameOK env t && probeOK env t && prefixOK st t &&
+  cleanTree t && spellOK env t && nameOK env t && listedExist env t && prefixOK st t &&
     env.order.isPerm t.files
 
 end Torf.Create.Spec
